@@ -56,7 +56,8 @@ def contains(v: Any, sub: Value) -> bool:
 
 def subterms(v: Any):
     if isinstance(v, tuple):
-        yield v
+        if v and isinstance(v[0], str):
+            yield v
         for x in v:
             if isinstance(x, tuple):
                 yield from subterms(x)
